@@ -27,6 +27,7 @@ PKGS = {
                                        ("\tw.fileWriter.CloseTemp()\n\treturn w.fileWriter.DeleteTemp()", "\tverifDepHook(\"cptv.close.compressed\")\n\tw.fileWriter.CloseTemp()\n\tverifDepHook(\"cptv.close.scratchclosed\")\n\treturn w.fileWriter.DeleteTemp()"),
                                    ]},
                                ]},
+    "leptond-main": {"dir": "cmd/leptond", "name": "main", "harness": "leptond-main", "templates": ["kit"]},
     "writer-main": {"dir": "cmd/thermal-writer", "name": "main", "harness": "writer-main", "templates": ["kit"]},
 }
 
@@ -231,13 +232,15 @@ PROPS = {
                 "lepton3/3.5/boson, 16x12 and 160x120. Oracles: parsed header == sent; bytes after the blank line intact; frames received == sent; resets == markers; continuous-recorder files hold every sent frame once, in order, pixel- and telemetry-exact; "
                 "motion files equal the reference pipeline's prediction (recordings end at 'clear', detection restarts). Non-trivial = every completed case; distinct by encoded header / (stream, segmentation).",
         "assumptions": COMMON_ASSUME + ["cmd/leptond's sendCameraSpecs needs camera hardware; its encoder call is replicated by the harness", "string values are single-line (a value containing an empty line cannot be framed by a blank-line-terminated header)",
-                                        "agreement on header keys rests on both daemons importing the same headers constants (observed from the recorder side only); the 'clear' marker constants of both binaries are compared at run time by job 3"],
+                                        "the 'clear' marker, the header key set and the Lepton frame size compiled into cmd/leptond and cmd/thermal-recorder are reported by in-package jobs of both binaries and compared by the driver"],
         "level_text": "Differential header round trip with exhaustive truncation points per generated header, plus an offline sent-vs-stored comparison through the real socket loop under adversarial read segmentation.",
         "level_note": "F6 (CameraSerial outside Go int reads 0) is a listed known finding.",
         "technique": "differential round-trip monitor + offline sent-vs-stored checker under randomized read segmentation",
         "jobs": [
             {"pkg": "headers", "test": "TestVerif_C14Header", "shards": (8, 16), "timeout": (300, 1800), "require": ["headers", "truncation_points", "serials_outside_int"]},
             {"pkg": "headers", "test": "TestVerif_C14Header", "tag": "386", "goarch": "386", "shards": (4, 8), "timeout": (300, 1800), "require": ["headers", "truncation_points"]},
+            {"pkg": "leptond-main", "test": "TestVerif_C14Agree", "tag": "leptond", "shards": (1, 1), "timeout": (120, 120), "require": ["constant_sets_reported"]},
+            {"pkg": "recorder-main", "test": "TestVerif_C14Agree", "tag": "recorder", "shards": (1, 1), "timeout": (120, 120), "require": ["constant_sets_reported"]},
             {"pkg": "recorder-main", "test": "TestVerif_C14Pipe", "race": True, "shards": (16, 16), "timeout": (600, 3000), "require": ["connections", "frames_verified_in_storage", "clear_markers", "recordings_ended_by_clear", "motion_files"]},
         ],
     },
